@@ -29,14 +29,14 @@ PROPS = {
                 outside=["stave mode beyond the ALPIDE decoder step (bunch-counter comparisons use HashMap)", "several links, batches of 100, -E/mute plumbing, clap", "multi-word symbolic templates (exhaust memory)"]),
     "C02": dict(decided="fault catalogue, one documented rule at a time: " + STEP + ": the broken rule is reported with its documented code family at the offending word's offset quoting its bytes; running rules are silent under check sanity; padding limit reported once at the RDH; exit-status table for all codes/flags",
                 outside=["two or more rules broken at once", "faults needing more than one remembered packet", "stave-level rules", "the thread that raises the any-errors flag"]),
-    "C03": dict(decided="scanner inductive step: ONE load_cdp from an arbitrary input position (tracker < 2^40) over a stream with concrete packet sizes and filter-relevant ids and otherwise symbolic contents delivers the first matching packet with its true offset, truthful header fields and exactly its payload bytes and re-establishes the position invariant (file-like and pipe-like in-memory readers, load/skip, link/FEE/stave filters incl. absent values); offset_to_next accepted iff 64..=10064 for all headers; filter predicates for all values",
+    "C03": dict(decided="scanner inductive step: ONE load_cdp from an arbitrary input position (tracker < 2^40) over a stream with concrete packet sizes and filter-relevant ids and otherwise symbolic contents delivers the first matching packet with its true offset, truthful header fields and exactly its payload bytes and re-establishes the position invariant (file-like and pipe-like in-memory readers, load/skip, link/FEE/stave filters incl. absent values); offset_to_next accepted iff 64..=10064 for all headers, and an invalid offset in a packet the filter skips ends the scan with InvalidData; filter predicates for all values",
                 outside=["real files/pipes (StdInReaderSeeker reads io::stdin())", "payloads > 16 bytes", "batch size 100 (get_array_batch)", "whole multi-packet scans in one query (best-effort, exhaust memory)"]),
     "C04": dict(decided="unit-level crash freedom in release semantics (debug assertions off): lane-count / inner-grouping checks for arbitrary lane and fatal-lane sets, Stave::from_feeid for all FEE ids, lane helpers, RDH validators over 4 arbitrary headers, ALPIDE byte classification never yields Ape(Padding), decoder step, payload chunking for all payloads <= 40 bytes, scanner truncation",
                 outside=["the process as a whole (threads, signals, stdout, exit)", "CdpRunningValidator::check on arbitrary words in stave mode", "wall-clock bounds", "uninitialised-read findings in load_payload_raw"]),
     "C07": dict(decided="composition: scanner step gives true packet offset and bytes (C03); chunk i of preprocess_payload is the slice at i*slot (pointer equality, C12); every report of a validator step carries rdh_pos + 64 + index*slot and quotes exactly the word's 10 bytes (all step harnesses); CdpTracker/ view offset formulas for all indices",
                 outside=["rendering of numbers (std::fmt)", "stave-level multi-line messages", "E100/E101 positions"]),
-    "C08": dict(decided="RdhCru::from_buf(b).to_byte_slice() == b for all 2^512 headers; the scanner step delivers exactly the matching packets' bytes in order (C03, load mode); layer/stave, FEE and link match predicates for all values",
-                outside=["BufferedWriter::push_cdp_arr/flush (best-effort harnesses exhaust 16 GB)", "files, stdout, the 1 MiB threshold, the writer thread", "union over all filter values", "stdin reader"]),
+    "C08": dict(decided="RdhCru::from_buf(b).to_byte_slice() == b for all 2^512 headers; the scanner step delivers exactly the matching packets' bytes in order (C03, load mode); layer/stave, FEE and link match predicates for all values; BufferedWriter: one pushed packet, flush, second flush with nothing new: the sink receives rdh|payload byte for byte exactly once",
+                outside=["BufferedWriter with more than one buffered packet or two non-empty flushes (best-effort, exhausts 44 GB)", "files, stdout, the 1 MiB threshold, the writer thread", "union over all filter values", "stdin reader"]),
     "C09": dict(decided="ItsPayloadFsmContinuous::advance from new() over all sequences of <= 12 words (thorough: 20) is bisimilar to the documented diagram (12 implementation states, every edge covered); one step from every reachable state; reset_fsm; an identifier illegal in a state is reported ([E30]/[E40] in single-successor states, [E99x] + fallback sanity error in choice states) at the word",
                 outside=["sequences longer than 12 (thorough: 20) words in one query (covered inductively by the one-step harness)"]),
     "C10": dict(decided="RdhCruSanityValidator verdict == documented rules for all 2^512 headers (default, ITS-specialised, configured version; Header ID relative to the first header seen); RdhCruRunningChecker verdict == documented automaton over all 3-header histories from an HBF start and one step from an arbitrary checker state; LinkValidator::do_rdh_checks on an arbitrary first header and on an arbitrary second header after a conforming one: number of errors, [E10], every error at that RDH's offset",
@@ -51,9 +51,9 @@ PROPS = {
                 outside=["HBF / layer-stave collection inside the analysis thread", "distinct error codes (regex)", "report table, written file"]),
     "C15": dict(decided="drift-detection half: a collector that differs from the reference in exactly one collected statistic (each StatType message kind with an arbitrary value, each of the 20 counted trigger bits, each ALPIDE readout-flag counter) is rejected by validate_other_stats / AlpideStats::validate_other in both directions; identical collectors are accepted",
                 outside=["JSON/TOML writing and parsing, i.e. the round-trip half of the property", "hostile strings in messages", "Controller::run's file handling and the exit status"]),
-    "C16": dict(decided="util::lib::exit == documented table for all (code, flag, configured any-errors code); Config::validate_args is Err iff a documented invalid combination (check kind x target x trigger period x -E); error total == number of Error messages collected; custom-check failures counted; match_error_code (the display filter's kernel) is true iff the message's code EQUALS the listed code for all digit values (2-4 digit codes, prefix cases both ways)",
+    "C16": dict(decided="util::lib::exit == documented table for all (code, flag, configured any-errors code); Config::validate_args is Err iff a documented invalid combination (check kind x target x trigger period x -E); error total == number of Error messages collected; the reader's own [E100] message starts with the position rendered by UpperHex (what the collector's position sort requires); custom-check failures counted; match_error_code (the display filter's kernel) is true iff the message's code EQUALS the listed code for all digit values (2-4 digit codes, prefix cases both ways)",
                 outside=["clap parsing", "the controller thread", "the display filter's iterator plumbing over the message list (filter_error_msgs/minify_filter: best-effort harnesses exhaust memory)", "'rejected before any output is written'"]),
-    "C18": dict(decided="one packet followed by arbitrary bytes, input cut in each region (RDH / payload / at the boundary / inside the next RDH; both ends of each region, contents symbolic): complete packet delivered unchanged, cut payload => RDH delivered + exactly one [E100], cut RDH => UnexpectedEof",
+    "C18": dict(decided="one packet followed by arbitrary bytes, input cut in each region (RDH / payload / at the boundary / inside the next RDH; both ends of each region, contents symbolic): complete packet delivered unchanged, cut payload => RDH delivered + exactly one [E100], cut RDH => UnexpectedEof; the empty payload handed on for a cut packet (and any payload of 0..=40 bytes) goes through preprocess_payload without a panic",
                 outside=["cut inside the first 8 bytes at init_processing level (fixed defect F2, shown on the binary)", "validators' reaction", "real pipes"]),
     "C19": dict(decided="view word offset formula for all indices/formats/offsets; ItsPayloadWord::from_id == identifier table for all 256 ids and agrees with the FSM's classification on allowed sequences; TDH/TDT/DDW0/RDH-trigger label functions == documented bits for all inputs",
                 outside=["rows, layout, styled == unstyled, anything written to stdout"]),
